@@ -373,8 +373,13 @@ func runC16(seed int64, count int) {
 				// the strings are compared only after the last frame was delivered
 				tc := format.TextCodec()
 				var fc netty.InboundHandler = frame.VariableLengthCodec(4096)
-				if rng.Intn(2) == 0 {
+				delim := false
+				switch rng.Intn(3) {
+				case 0:
 					fc = frame.PacketCodec(64)
+				case 1: // delimiter-framed text, the pairing of the repository's own example
+					fc = frame.DelimiterCodec(4096, "\n", true)
+					delim = true
 				}
 				k := 2 + rng.Intn(3)
 				sent := make([][]byte, k)
@@ -384,6 +389,9 @@ func runC16(seed int64, count int) {
 					sent[j] = make([]byte, n)
 					for x := range sent[j] {
 						sent[j][x] = byte(rng.Intn(256))
+						if delim && sent[j][x] == '\n' {
+							sent[j][x] = '.'
+						}
 					}
 				}
 				func() {
@@ -391,7 +399,7 @@ func runC16(seed int64, count int) {
 					for j := range sent {
 						fc.HandleRead(&fakeCtx{onRead: func(m netty.Message) {
 							tc.HandleRead(&fakeCtx{onRead: func(m netty.Message) { got = append(got, m.(string)) }}, m)
-						}}, bytes.NewReader(append([]byte(nil), sent[j]...)))
+						}}, bytes.NewReader(append(append([]byte(nil), sent[j]...), []byte("\n")[:b2i(delim)]...)))
 					}
 				}()
 				for j := range sent {
